@@ -91,7 +91,29 @@ func segEval(c *Ctx, fn *types.Func, k segCase) (poly, float64, string) {
 	val := map[string]float64{"__ranks": 1}
 	it.valuation = val
 	c.Evals(1)
-	res, why := it.Call(fn, nil, []oval{it.point(m.ptT, k.p.x, k.p.y), it.point(m.ptT, k.s.x, k.s.y), it.point(m.ptT, k.e.x, k.e.y)}, 0)
+	// the point and the two ends, in the form the function takes them: three points, or a point
+	// and a value of two point fields (in either order)
+	pts := []oval{it.point(m.ptT, k.p.x, k.p.y), it.point(m.ptT, k.s.x, k.s.y), it.point(m.ptT, k.e.x, k.e.y)}
+	var args []oval
+	sig := fn.Type().(*types.Signature)
+	if sig.Params().Len() == 3 {
+		args = pts
+	} else {
+		for i := 0; i < sig.Params().Len(); i++ {
+			t := sig.Params().At(i).Type()
+			if types.Identical(t, m.ptT) {
+				args = append(args, pts[0])
+				continue
+			}
+			st, ok := it.zero(t).(*oStruct)
+			if !ok || len(st.order) != 2 {
+				return nil, 0, "parameter form"
+			}
+			st.fields[st.order[0]], st.fields[st.order[1]] = pts[1], pts[2]
+			args = append(args, st)
+		}
+	}
+	res, why := it.Call(fn, nil, args, 0)
 	if why != "" {
 		return nil, 0, why
 	}
@@ -122,16 +144,25 @@ func segDistFamily(c *Ctx) []*types.Func {
 			continue
 		}
 		sig := fn.Type().(*types.Signature)
-		if sig.Recv() != nil || sig.Params().Len() != 3 || sig.Results().Len() != 1 || !isFloat64(sig.Results().At(0).Type()) {
+		if sig.Recv() != nil || sig.Results().Len() != 1 || !isFloat64(sig.Results().At(0).Type()) {
 			continue
 		}
-		ok := true
-		for i := 0; i < 3; i++ {
-			if !types.Identical(sig.Params().At(i).Type(), ptT) {
-				ok = false
+		// three points in all: (Point, Point, Point), or a Point and a value of two Point fields
+		n, ok := 0, true
+		for i := 0; i < sig.Params().Len(); i++ {
+			t := sig.Params().At(i).Type()
+			if types.Identical(t, ptT) {
+				n++
+				continue
 			}
+			st, isSt := t.Underlying().(*types.Struct)
+			if !isSt || st.NumFields() != 2 || !types.Identical(st.Field(0).Type(), ptT) || !types.Identical(st.Field(1).Type(), ptT) {
+				ok = false
+				break
+			}
+			n += 2
 		}
-		if !ok {
+		if !ok || n != 3 {
 			continue
 		}
 		// a distance is never negative; an orientation test changes sign with the side
